@@ -25,6 +25,8 @@ def jobs(tier, seed):
             for size in (("small",) if q else ("small", "large")):
                 for mode in ("crash", "fail"):
                     out.append({"kind": "shim", "ext": ext, "prior": prior, "size": size, "mode": mode, "seed": seed})
+                    if size == "small" and prior in ("good", "good+bak", "none"):
+                        out.append({"kind": "shim", "ext": ext, "prior": prior, "size": size, "mode": mode, "seed": seed, "layout": "symlink-file"})
     for ext in ("json", "pickle"):
         for prior in (("good", "none") if q else PRIORS):
             for mode in ("kill", "error"):
@@ -63,28 +65,62 @@ def state_bytes(lines, ext, tmp):
 
 
 def snapshot_dir(d):
+    """relative path -> bytes, or ('symlink', target) for a symbolic link."""
     snap = {}
-    for f in os.listdir(d):
-        with open(os.path.join(d, f), "rb") as fh:
-            snap[f] = fh.read()
+    for root, dirs, files in os.walk(d):
+        for f in files + [x for x in dirs if os.path.islink(os.path.join(root, x))]:
+            full = os.path.join(root, f)
+            rel = os.path.relpath(full, d)
+            if os.path.islink(full):
+                snap[rel] = ("symlink", os.readlink(full))
+            else:
+                with open(full, "rb") as fh:
+                    snap[rel] = fh.read()
     return snap
 
 
 def materialise(d, snap):
-    for f in os.listdir(d):
-        os.remove(os.path.join(d, f))
+    for root, dirs, files in os.walk(d, topdown=False):
+        for f in files:
+            os.remove(os.path.join(root, f))
+        for x in dirs:
+            full = os.path.join(root, x)
+            if os.path.islink(full):
+                os.remove(full)
+    for sub in LAYOUT_DIRS:
+        os.makedirs(os.path.join(d, sub), exist_ok=True)
     for f, data in snap.items():
-        with open(os.path.join(d, f), "wb") as fh:
-            fh.write(data)
+        full = os.path.join(d, f)
+        os.makedirs(os.path.dirname(full), exist_ok=True)
+        if isinstance(data, tuple):
+            os.symlink(data[1], full)
+        else:
+            with open(full, "wb") as fh:
+                fh.write(data)
+
+
+LAYOUT_DIRS = ("real", "link")
+
+
+def layout_names(ext, layout):
+    """(configured path, main, bak, tmp) relative to the scratch directory. 'symlink-file': the configured path is a
+    symbolic link into another directory (the library writes the temp file beside the real file and keeps the backup beside
+    the configured path)."""
+    main, bak, tmp = names(ext)
+    if layout == "symlink-file":
+        return os.path.join("link", main), os.path.join("real", main), os.path.join("link", bak), os.path.join("real", tmp)
+    return main, main, bak, tmp
 
 
 def names(ext):
     return f"net.{ext}", f"net.{ext}.bak", f"net.tmp.{ext}"
 
 
-def setup_prior(d, ext, prior, dataA, dataOld):
-    main, bak, tmp = names(ext)
+def setup_prior(d, ext, prior, dataA, dataOld, layout="plain"):
+    cfg, main, bak, tmp = layout_names(ext, layout)
     snap = {}
+    if layout == "symlink-file":
+        snap[cfg] = ("symlink", os.path.join("..", main))
     if prior != "none":
         snap[main] = dataA
     if "bak" in prior:
@@ -102,8 +138,7 @@ def judge_dir(res, d, ext, allowed, case, flavour):
     from ..drive import projection, strict
     from ..persist import PGateway
 
-    main = names(ext)[0]
-    path = os.path.join(d, main)
+    path = os.path.join(d, layout_names(ext, case.get("layout", "plain"))[0])
     pg = PGateway(flavour, VERSION, path)
     try:
         pg.start()
@@ -147,7 +182,8 @@ def run_shim(job, res):
     from ..fsshim import Shim
 
     ext, prior, size, mode = job["ext"], job["prior"], job["size"], job["mode"]
-    rng = core.rng_for(ID, job["seed"], ext, prior, size, mode)
+    layout = job.get("layout", "plain")
+    rng = core.rng_for(ID, job["seed"], ext, prior, size, mode, layout)
     nn = 2 if size == "small" else 30
     work = tempfile.mkdtemp(prefix="vf-c12-")
     d = os.path.join(work, "dir")
@@ -158,10 +194,9 @@ def run_shim(job, res):
         sA = strict(projection(build(LA).gw.sensors)) if prior != "none" else strict({})
         sB = strict(projection(build(LB).gw.sensors))
         allowed = [("old", sA), ("new", sB)]
-        main, bak, tmpn = names(ext)
-        path = os.path.join(d, main)
+        path = os.path.join(d, layout_names(ext, layout)[0])
         # dry run: the op sequence of this save on this prior configuration
-        setup_prior(d, ext, prior, dataA, dataOld)
+        setup_prior(d, ext, prior, dataA, dataOld, layout)
         eng = build(LB, path)
         with Shim("count") as sh:
             eng.gw.tasks.persistence.save_sensors()
@@ -173,7 +208,7 @@ def run_shim(job, res):
         points = sorted(set(range(0, N, stride)) | {i for i, o in enumerate(ops) if o[0] != "write"} | {N})
         if mode == "crash":
             for k in points:
-                setup_prior(d, ext, prior, dataA, dataOld)
+                setup_prior(d, ext, prior, dataA, dataOld, layout)
                 logp = os.path.join(work, "ops.log")
                 pid = os.fork()
                 if pid == 0:
@@ -196,10 +231,11 @@ def run_shim(job, res):
                     done = [l.split(" ", 2) for l in fh.read().splitlines()][: k]
                 res.evals += 1
                 res.count("crash_points")
-                case = {"kind": "shim", "ext": ext, "prior": prior, "size": size, "mode": "crash", "k": k, "opname": opname,
+                case = {"kind": "shim", "ext": ext, "prior": prior, "size": size, "mode": "crash", "k": k, "opname": opname, "layout": layout,
                         "desc": f"a crash before op {k}/{N} ({opname}) of a {ext} save over prior '{prior}'"}
                 judge_dir(res, d, ext, allowed, case, "sync" if k % 2 else "async")
-                res.nontrivial((ext, prior, size, "crash", k, "asis"))
+                res.nontrivial((ext, prior, size, "crash", k, "asis", layout))
+                res.count(f"layout:{layout}")
                 # unsynced data lost: files written but not fsynced afterwards
                 unsynced = unsynced_files(done, ext)
                 for fname in unsynced:
@@ -219,7 +255,7 @@ def run_shim(job, res):
                 if k >= N:
                     continue
                 for err in ERRNOS if ops[k][0] != "write" or k % 7 == 0 else [ERRNOS[k % 3]]:
-                    setup_prior(d, ext, prior, dataA, dataOld)
+                    setup_prior(d, ext, prior, dataA, dataOld, layout)
                     eng = build(LB, path)
                     sh = Shim("fail", at=k, err=err).install()
                     raised = None
@@ -234,7 +270,7 @@ def run_shim(job, res):
                     res.count("failing_ops")
                     if sh.fired:
                         res.count("faults_fired")
-                    case = {"kind": "shim", "ext": ext, "prior": prior, "size": size, "mode": "fail", "k": k, "opname": opname,
+                    case = {"kind": "shim", "ext": ext, "prior": prior, "size": size, "mode": "fail", "k": k, "opname": opname, "layout": layout,
                             "errno": errno.errorcode[err],
                             "desc": f"{errno.errorcode[err]} from op {k}/{N} ({opname}) of a {ext} save over prior '{prior}'"}
                     snap = snapshot_dir(d)
@@ -419,7 +455,7 @@ def finish(agg, tier):
     floors = [("crash_points", c.get("crash_points", 0), 400), ("failing_ops", c.get("failing_ops", 0), 400),
               ("faults_fired", c.get("faults_fired", 0), 400), ("loads_judged", c.get("loads_judged", 0), 1000),
               ("next_saves_judged", c.get("next_saves_judged", 0), 1000), ("loaded_old", c.get("loaded_old", 0), 100),
-              ("loaded_new", c.get("loaded_new", 0), 30)]
+              ("loaded_new", c.get("loaded_new", 0), 30), ("layout:symlink-file", c.get("layout:symlink-file", 0), 150)]
     notes = []
     if c.get("strace_unusable") or not c.get("strace_runs"):
         notes.append("strace half not usable in this sandbox run; the in-process shim half decides")
@@ -433,7 +469,8 @@ def finish(agg, tier):
                 "prefix); (b) as failing operation (EIO/ENOSPC/EACCES), followed by a retry in the surviving gateway. The same is "
                 "repeated at system-call level on a real process under strace (SIGKILL on entry to the k-th call; error injection). "
                 "Oracle: a fresh gateway's start_persistence() yields exactly the old or the new complete state, and one more save + "
-                "load yields the then-current state. distinct = (format, prior, size, op index, crash/fail, loss variant).",
+                "load yields the then-current state. Layouts: the configured path is the file itself, or (small states, priors none / good / "
+                "good+bak) a symbolic link into another directory. distinct = (format, prior, size, op index, crash/fail, loss variant, layout).",
         "floors": floors,
         "notes": notes,
         "assumptions": ["directory operations are durable in issue order (journalled metadata); file data is durable only after fsync",
